@@ -117,7 +117,9 @@ def class_expr_stream(tier, seed, builtins, log):
 
     def dense_set():
         items = []
-        for _ in range(rng.randint(1, 5)):
+        # now and then a LONG item list (13-20 items over the same small alphabet: heavy nesting and overlap): an evaluator may treat long
+        # lists differently (sort-and-merge instead of one-by-one insertion)
+        for _ in range(rng.randint(13, 20) if rng.random() < 0.15 else rng.randint(1, 5)):
             if rng.random() < 0.45:
                 items.append(('c', pt()))
             else:
@@ -1552,11 +1554,22 @@ def mutate_illformed(d, rng):
             nb = ('ruleset', b[1], b[2] + [('rule', 'simple', ('var', 'localv'), None)])
             out.append(('local_var_leak', with_items(items[:first] + [na] + items[first + 1:last] + [nb] + items[last + 1:])))
             # the same, with the variable used in textually identical positions of both rule sets: in a right context, under `#`, under `*`
-            for tag, use in (('ctx', lambda v: ('rule', 'simple', ('chr', 112), v)), ('diff', lambda v: ('rule', 'simple', ('diff', ('any',), v), None)),
-                             ('star', lambda v: ('rule', 'simple', ('cat', ('chr', 113), ('star', v)), None)), ('ctxdiff', lambda v: ('rule', 'simple', ('chr', 114), ('diff', ('any',), v)))):
-                na2 = ('ruleset', a[1], [('let', 'localv', ('chr', 97)), use(('var', 'localv'))] + a[2])
-                nb2 = ('ruleset', b[1], b[2] + [use(('var', 'localv'))])
-                out.append(('local_var_leak_' + tag, with_items(items[:first] + [na2] + items[first + 1:last] + [nb2] + items[last + 1:])))
+            # ... bound to a one-character class, to a big built-in class and to a long bracket set (anything that is remembered per NAME —
+            # and perhaps only when it is big enough to be worth remembering — leaks into the scope where the name is unbound)
+            big_set = ('set', [('r', 0x100 * k, 0x100 * k + 0x20) for k in range(1, 21)])
+            for btag, bound in (('', ('chr', 97)), ('_bigbuiltin', ('bi', 'alphabetic')), ('_bigset', big_set)):
+                for tag, use in (('ctx', lambda v: ('rule', 'simple', ('chr', 112), v)), ('diff', lambda v: ('rule', 'simple', ('diff', ('any',), v), None)),
+                                 ('star', lambda v: ('rule', 'simple', ('cat', ('chr', 113), ('star', v)), None)), ('ctxdiff', lambda v: ('rule', 'simple', ('chr', 114), ('diff', ('any',), v))),
+                                 ('diffleft', lambda v: ('rule', 'simple', ('cat', ('chr', 115), ('diff', v, ('chr', 120))), None))):
+                    if btag and tag in ('ctx', 'star'):
+                        continue
+                    na2 = ('ruleset', a[1], [('let', 'localv', bound), use(('var', 'localv'))] + a[2])
+                    nb2 = ('ruleset', b[1], b[2] + [use(('var', 'localv'))])
+                    out.append(('local_var_leak_' + tag + btag, with_items(items[:first] + [na2] + items[first + 1:last] + [nb2] + items[last + 1:])))
+                    if tag in ('diff', 'diffleft'):
+                        # the same name bound in the second scope to something that is NOT a class: `#` must reject it there
+                        nb3 = ('ruleset', b[1], [('let', 'localv', ('cat', ('str', [97, 98]), ('star', ('chr', 99))))] + b[2] + [use(('var', 'localv'))])
+                        out.append(('not_a_class_after_class_' + tag + btag, with_items(items[:first] + [na2] + items[first + 1:last] + [nb3] + items[last + 1:])))
     out.append(('dup_error_type', with_items([('errortype',)] + items)))
     # variable used before... (lazy lookup: a let *after* the rule is unbound at the rule)
     if rules_pos:
